@@ -4,7 +4,7 @@ From Coq Require Import List NArith ZArith Bool.
 From Delb.Base Require Import PyStr PyStrFacts.
 From Delb.Gen Require Import GenNames GenWrap.
 From Delb.Tree Require Import ATree Merge.
-From Delb.Ws Require Import Reduce Pretty SimplePP WsVariant WsVariantFacts PrettyVariant Wrap WrapSerFacts WrapTextOnly WrapVariant WrapTextStep WrapFull.
+From Delb.Ws Require Import Reduce Pretty SimplePP WsVariant WsVariantFacts PrettyVariant Wrap WrapSerFacts WrapTextOnly WrapVariant WrapTextStep WrapFull Qualified QualifiedFacts QualifiedSer.
 Import ListNotations.
 
 (* (A) soundness of the legality criterion, for every serializer: reducing a legal whitespace variant
@@ -51,8 +51,12 @@ Proof. vm_compute. repeat split. discriminate. Qed.
    (`real_req`, which has that property: real_req_nofit0).
    The hypothesis on the oracle is necessary (C03_wrapped_oracle_hypothesis_needed): when a line break consumes
    the trailing space of a text the line is full, and an oracle that lets the next element fit into no space glues
-   it to the text.  Not covered for width > 0: indentation strings that contain a newline (the writer strips them
-   at the start of a line; ./check C03 covers them by testing only).
+   it to the text.
+   The guard `no_lf ind` (the indentation contains no newline; decidable) is necessary as well: FormatOptions
+   accepts every str.isspace indentation, and with a newline in it the code violates the property
+   (C03_wrapped_refuted, finding C03-newline-in-indentation, open): _line_offset subtracts
+   level * len(indentation) from the writer's offset, which counts from the last newline - the one inside the
+   indentation.  At width 0 such indentations are covered by C03_width0.
    It was false of the code before b3af6c0 (finding C03-preserved-newline-offset, fixed); the former witnesses are
    the regression Example below.
    Proof (Ws/WrapVariant.v, Ws/WrapTextStep.v, Ws/WrapFull.v): the writer invariant `winv` (offset 0 only after a
@@ -70,7 +74,19 @@ Example C03_wrapped_regression :
   reduce_model (wrap_seen [SP; SP] false 5%Z c03_witness_comment []) = c03_witness_comment.
 Proof. split; [exact (proj1 (proj2 (proj2 c03_witness_regression)))|exact (proj2 (proj2 (proj2 (proj2 (proj2 c03_witness_regression)))))]. Qed.
 
-(* THE STATEMENT: all trees, every admissible oracle, root or sub-tree *)
+(* at full strength (every whitespace indentation) the property is false of the unchanged code: <r>a b <i/></r>, indentation
+   "\n", width 1 is written as <r>(LF)a(LF)b<i/>(LF)</r> and re-read as <r>a b<i/></r> *)
+Theorem C03_wrapped_refuted : exists ind align width T,
+  ws_indent ind = true /\ (1 <= width)%Z /\ reduced T /\ is_text T = false /\
+  reduce_model (wrap_seen ind align width T []) <> T.
+Proof.
+  exact (ex_intro _ [LF] (ex_intro _ false (ex_intro _ 1%Z (ex_intro _ c03_lf_witness
+    (conj (proj1 (proj2 (proj2 c03_lf_indentation_refuted))) (conj (Z.le_refl 1) (conj (proj1 c03_lf_indentation_refuted)
+    (conj (proj1 (proj2 c03_lf_indentation_refuted)) (proj1 (proj2 (proj2 (proj2 (proj2 (proj2 c03_lf_indentation_refuted)))))))))))))).
+Qed.
+Print Assumptions C03_wrapped_refuted.
+
+(* THE STATEMENT under the decidable guard `no_lf ind = true`: all trees, every admissible oracle, root or sub-tree *)
 Theorem C03_wrapped : forall ind align width req T, ws_indent ind = true -> no_lf ind = true -> (1 <= width)%Z ->
   (forall rp u x, get T rp = Some x -> is_text x = false -> (u <= 0)%Z -> req rp u = None) ->
   forall t sr, get T sr = Some t -> reduced t -> is_text t = false ->
@@ -85,6 +101,13 @@ Theorem C03_wrapped_real : forall ind align width T sr t, ws_indent ind = true -
   reduce_model (wrap_seen ind align width T sr) = t.
 Proof. exact wrap_real_transparent. Qed.
 Print Assumptions C03_wrapped_real.
+
+(* the name BUILDING.md asks for: the property under the guard of the open finding's class *)
+Theorem C03_wrapped_partial : forall ind align width T sr t, ws_indent ind = true -> no_lf ind = true -> (1 <= width)%Z ->
+  get T sr = Some t -> reduced t -> is_text t = false ->
+  reduce_model (wrap_seen ind align width T sr) = t.
+Proof. exact wrap_real_transparent. Qed.
+Print Assumptions C03_wrapped_partial.
 
 (* the hypothesis on the oracle cannot be dropped: with an oracle that lets everything fit, <r>aa bbb <i/>c</r> at width 3
    loses the space before <i/> (the real heuristics put a newline there) *)
@@ -194,3 +217,42 @@ Example C03_wrapped_example :
   wrap_str [SP; SP] false 5%Z t [] <> render (plain t) /\
   reduce_model (wrap_seen [SP; SP] false 5%Z t []) = t.
 Proof. exact wrapped_ok_example. Qed.
+
+(* ---- namespaced trees -----------------------------------------------------------------------------------------
+   The serializer models have no namespace machinery: a namespaced tree is serialized as its qualified view
+   (Ws/Qualified.v: names prefix ++ local name without a namespace, the declarations as attributes of the
+   serialization root), for the prefix table pf and the declarations decl that Serializer._collect_prefixes
+   computes - the theorems hold for every pf and decl.  ./check C03 compares the model on the qualified view (pf,
+   decl read off the real plain serialization) byte for byte with the real formatted output of namespaced
+   documents, and re-reads the real output with the real, namespace-aware parser.  Whitespace reduction commutes
+   with the view (C03_qualified_view_commutes); that the prefixed names with these declarations are read back as
+   the namespaced names is C13's statement. *)
+Theorem C03_qualified_view_commutes : forall pf decl t, plain_decl decl = true ->
+  reduce_model (qual_root pf decl t) = qual_root pf decl (reduce_model t).
+Proof. exact reduce_model_qual_root. Qed.
+Print Assumptions C03_qualified_view_commutes.
+
+Theorem C03_width0_namespaced : forall pf decl t ind align, is_tag t = true -> reduced t -> plain_decl decl = true ->
+  ws_indent ind = true ->
+  reduce_model (pretty_seen ind align (qual_root pf decl t)) = qual_root pf decl t.
+Proof. exact width0_transparent_ns. Qed.
+Print Assumptions C03_width0_namespaced.
+
+(* T' : the document as the serializer of the sub-tree at sr names it *)
+Theorem C03_wrapped_namespaced : forall pf decl ind align width T' sr t, ws_indent ind = true -> no_lf ind = true ->
+  (1 <= width)%Z -> plain_decl decl = true ->
+  get T' sr = Some (qual_root pf decl t) -> reduced t -> is_text t = false ->
+  reduce_model (wrap_seen ind align width T' sr) = qual_root pf decl t.
+Proof. exact wrap_real_transparent_ns. Qed.
+Print Assumptions C03_wrapped_namespaced.
+
+Example C03_namespaced_example :
+  reduce_model ns_example = ns_example /\ plain_decl ns_example_decl = true /\
+  qual_root ns_example_pf ns_example_decl ns_example <> ns_example /\
+  reduce_model (pretty_seen [SP; SP] false (qual_root ns_example_pf ns_example_decl ns_example))
+    = qual_root ns_example_pf ns_example_decl ns_example /\
+  reduce_model (wrap_seen [SP; SP] false 6%Z (qual_root ns_example_pf ns_example_decl ns_example) [])
+    = qual_root ns_example_pf ns_example_decl ns_example /\
+  wrap_str [SP; SP] false 6%Z (qual_root ns_example_pf ns_example_decl ns_example) []
+    <> render (plain (qual_root ns_example_pf ns_example_decl ns_example)).
+Proof. exact ns_example_ok. Qed.
